@@ -181,7 +181,7 @@ impl Check for Access {
         let mut m = Model { admin: Some(0), ..Default::default() };
         let fault = if rng.chance(25) { 0 } else { 5 + rng.below(20) };
         let mut steps = vec![];
-        if rng.below(if tier == Tier::Quick { 60 } else { 40 }) == 0 {
+        if rng.below(if tier == Tier::Quick { 250 } else { 150 }) == 0 {
             // limit scenario: MAX_ROLES (256) roles in existence, one more refused, a member added to an existing role accepted,
             // one role emptied, a new one admitted
             for j in 0..256usize {
